@@ -105,6 +105,12 @@ def make_graph(rng):
             return v if t == "int" else "n%d" % v if t == "str" else (v, v + 1) if t == "tuple" else v + 0.5 if t == "float" else frozenset([v, -1])
         g = nx.relabel_nodes(g, {v: lab(v) for v in g.nodes()})
         g.graph["mixed_labels"] = True
+    elif r < 0.5 and g.number_of_nodes() <= 60:
+        from ..graphs import odd_numeric_labels
+        lk, g2 = odd_numeric_labels(rng, g)
+        g2.graph.update(g.graph)
+        g2.graph["unusual_labels"] = lk
+        g = g2
     if rng.random() < 0.5:
         h = nx.Graph()
         ns = list(g.nodes()); rng.shuffle(ns)
